@@ -89,13 +89,14 @@ let () =
           | "sdiff" -> CSchemaDiff | "sapply" -> CSchemaApply | "sinspect" -> CSchemaInspect
           | "checkpoint" -> CCheckpoint | s -> failwith ("cmd " ^ s) in
         let fs = parse_bits () in
+        let qs = parse_bits () in
         let rs = parse_bits () in
         let nobj = next_int () in
         let d = times nobj parse_obj in
         let dir = parse_dir () in
         let from = parse_src () in
         let to_ = parse_src () in
-        let (((o, same), empty), dirw) = observe norm cmd excl dir from to_ changes fs rs d in
+        let (((o, same), empty), dirw) = observe norm cmd excl dir from to_ changes (fs, qs) rs d in
         (* markers are 100*script+k; directory files are scripts 1..n.  DevLoader.base
            reports a failing statement of a base file (not one of the latest N) by file only *)
         let nfiles = Stdlib.List.length dir in
